@@ -73,6 +73,7 @@ func multiLineStringCentroid(mls orb.MultiLineString) orb.Point {
 	}
 
 	validCount := 0
+	flat := orb.Point{} // unweighted sum, used only when no line has a length
 	for _, ls := range mls {
 		c, d := lineStringCentroidDist(ls)
 		if d == math.Inf(1) {
@@ -82,9 +83,8 @@ func multiLineStringCentroid(mls orb.MultiLineString) orb.Point {
 		dist += d
 		validCount++
 
-		if d == 0 {
-			d = 1.0
-		}
+		flat[0] += c[0]
+		flat[1] += c[1]
 
 		point[0] += c[0] * d
 		point[1] += c[1] * d
@@ -95,9 +95,9 @@ func multiLineStringCentroid(mls orb.MultiLineString) orb.Point {
 	}
 
 	if dist == math.Inf(1) || dist == 0.0 {
-		point[0] /= float64(validCount)
-		point[1] /= float64(validCount)
-		return point
+		flat[0] /= float64(validCount)
+		flat[1] /= float64(validCount)
+		return flat
 	}
 
 	point[0] /= dist
